@@ -526,6 +526,13 @@ func (d *Dials[T]) submitEventBlocking(ctx context.Context, ev userCallbackEvent
 		return false
 	}
 	select {
+	case <-d.monDone:
+		// the monitor has already exited; don't let the select below
+		// pick the (buffered) send and report success.
+		return false
+	default:
+	}
+	select {
 	case <-ctx.Done():
 		return false
 	case <-d.monDone:
